@@ -94,31 +94,43 @@ def dense_by_tokens(ttn, tokens):
 
 # ---- operation generator --------------------------------------------------------------------------
 def gen_build(rng, nnodes, nopen_choices=(0, 1, 1, 1, 2, 3), dim_choices=(1, 2, 2, 3)):
-    """add_root/add_child ops: random shapes, random leg positions, 0/1/2+ open legs"""
+    """add_root/add_child ops: random tree, random shapes, random leg positions, 0/1/2+ open legs"""
+    parents = [None] + [rng.randrange(0, i) for i in range(1, nnodes)]
+    open_dims = [[rng.choice(dim_choices) for _ in range(rng.choice(nopen_choices))] for _ in range(nnodes)]
+    bond = {i: rng.choice(dim_choices) for i in range(1, nnodes)}
+    return gen_build_on(rng, parents, open_dims, bond)
+
+
+def gen_build_on(rng, parents, open_dims, bond, shuffle=True):
+    """add_root/add_child ops for the given tree: node i is "n{i}", its open legs have the given
+    dimensions (in that logical order), legs of every tensor are handed over in a random order and
+    children are attached in a random order (so child order and lazy permutations vary)."""
+    nnodes = len(parents)
     ops = []
     names = [f"n{i}" for i in range(nnodes)]
-    parents = [None] + [rng.randrange(0, i) for i in range(1, nnodes)]
-    nch = Counter(p for p in parents if p is not None)
-    cur = {}      # node -> list of labels in current node order: ("p",), ("c", j), ("o",)
-    dims = {}     # edge child index -> bond dim
-    for i in range(1, nnodes):
-        dims[i] = rng.choice(dim_choices)
+    cur = {}
     order = [0]
     frontier = [i for i in range(1, nnodes) if parents[i] == 0]
     while frontier:
-        c = frontier.pop(rng.randrange(len(frontier)))
+        c = frontier.pop(rng.randrange(len(frontier)) if shuffle else 0)
         order.append(c)
         frontier += [i for i in range(1, nnodes) if parents[i] == c]
     for i in order:
         legs = []
         if parents[i] is not None:
-            legs.append(("p", dims[i]))
+            legs.append(("p", bond[i]))
         for j in range(nnodes):
             if parents[j] == i:
-                legs.append(("c", j, dims[j]))
-        for _ in range(rng.choice(nopen_choices)):
-            legs.append(("o", rng.choice(dim_choices)))
-        rng.shuffle(legs)
+                legs.append(("c", j, bond[j]))
+        for k, d in enumerate(open_dims[i]):
+            legs.append(("o", k, d))
+        if shuffle:
+            rng.shuffle(legs)
+            # open legs must keep their logical order among themselves
+            opos = [k for k, l in enumerate(legs) if l[0] == "o"]
+            osorted = sorted([legs[k] for k in opos], key=lambda l: l[1])
+            for k, l in zip(opos, osorted):
+                legs[k] = l
         shape = [l[-1] for l in legs]
         if parents[i] is None:
             ops.append(["add_root", names[i], shape])
